@@ -400,9 +400,10 @@ func runAdminCase(idx int, c AdminCase, workdir string) (string, []MonitorHit, m
 			addr := string(keys[a.q.Target%len(keys)].PubKey().Address())
 			switch a.q.Cmd {
 			case "add_peer":
-				if _, ok := expected[addr]; !ok {
-					expected[addr] = a.q.Power
-				}
+				// an add is accepted only when the target is not in the set the block started with;
+				// a second accepted add of the same target in the same block is a signed request of
+				// its own and, applied in order at EndBlock, sets the power it names
+				expected[addr] = a.q.Power
 			case "update_node":
 				expected[addr] = a.q.Power
 			case "remove_node":
